@@ -174,7 +174,8 @@ func (ro *RedisOutput) bisyncRdbRestoreUnavailableReason(e *rdb.BinEntry) string
 func rewriteBisyncRdbCommandKeys(cmd string, args [][]byte, sourceKey []byte, targetKey []byte) [][]byte {
 	// Expanded commands still reference the original key layout, so key-bearing
 	// arguments must be updated when hashtag replacement changes the key text.
-	if len(sourceKey) == 0 || len(targetKey) == 0 || bytes.Equal(sourceKey, targetKey) {
+	// (an empty target key is a key like any other : "{}" with hashtag replacement)
+	if len(sourceKey) == 0 || bytes.Equal(sourceKey, targetKey) {
 		return args
 	}
 	indexes, ok := keyspec.CommandKeyIndexes(cmd, args)
